@@ -411,7 +411,7 @@ func mutateLog(r *Rng, text string) string {
 			"# End Point", "# End Point: nowhere", "# End Point: 1,2@3", "# End Point: 1, 2 @ 3", "# End Point: 1.2.3, 4 @ 5", "# End Point: -, - @ -",
 			"# Vehicle", "# Vehicle:", "#", "# ", "#x", "# :", "# a:b:c", "# Lap 1: 1:2:3.4 trailing", "# Lap 0: 99999999999:0:0.0",
 			"# Lap 1: 00:02:03.202_L", "# Lap 1: 00:02:03.2_0", "# Lap 1: 0_0:02:03.202", "# Lap 1: 00:02:03.1_000", "# Lap 1: 1_0:2:3.4", "# Lap 1_0: 00:00:01.000",
-			"# Lap 1: +1:-2:+3.+4", "# Lap 1: 00:02:03.202x", "# Lap 1:\t00:02:03.202", "# Lap 1: 0x1:2:3.4", "# Lap 1: 1e1:2:3.4", "# Lap 1: 00:02:03.2e1"})}, lines[i:]...)...)
+			"# Lap : 00:00:01.000", "# Lap  : 00:00:01.000", "# Lap \t: 00:00:01.000", "# Lap :", "# Lap  3: 00:00:01.000", "# Lap 3 4: 00:00:01.000", "# End Point:", "# End Point: ", "# End Point : 1, 2 @ 3", "# Lap 1: +1:-2:+3.+4", "# Lap 1: 00:02:03.202x", "# Lap 1:\t00:02:03.202", "# Lap 1: 0x1:2:3.4", "# Lap 1: 1e1:2:3.4", "# Lap 1: 00:02:03.2e1"})}, lines[i:]...)...)
 	case 9: // overlong line (rare: costly to evaluate)
 		if r.Chance(0.15) {
 			lines[i] = l + strings.Repeat("9", 70000)
@@ -443,7 +443,8 @@ func runC15(ctx *Ctx) error {
 	}
 	r := ctx.R
 	for _, s := range []string{"", "\n", "#", "# ", "# End Point", "# Lap 3", "# Vehicle", "# Session End\n\"Time\"\n0.1\n", "\"Time\"\n", "Time\n0.1\n0.2",
-		"\"Time\",\"Lap\"\n0.1\n", "\"Time\"\n0.1,2\n", "\"Time\"\n\"0.1\n", "\"Time\"\n\"0.1\"x\n", "\"Ti\"\"me\"\n", "\"Time\"\n\n0.1\n", "Bogus\n1\n", ",\n"} {
+		"\"Time\",\"Lap\"\n0.1\n", "\"Time\"\n0.1,2\n", "\"Time\"\n\"0.1\n", "\"Time\"\n\"0.1\"x\n", "\"Ti\"\"me\"\n", "\"Time\"\n\n0.1\n", "Bogus\n1\n", ",\n",
+		"# Lap : 00:00:01.000\n", "# Lap  : 00:00:01.000\n", "# Lap :\n", "# Lap \t : 1\n", "\"Time\"\n0.1\n# Lap : 00:00:01.000\n0.2\n", "# End Point:\n", "# End Point: \n", "# Vehicle:\n", "# Vehicle: \n", "# : \n", "# :\n"} {
 		addTACase(ctx, taInput{s, "named"})
 	}
 	n := ctx.N(700, 20000)
